@@ -192,7 +192,11 @@ def spec_usable(dt, j, strict=True):
         r = [spec_usable(d, x, strict) for d, x in zip(dt[1], j)]
         return None if any(x is None for x in r) else ('ok', [x[1] for x in r])
     if k == 'struct':
-        if not (isinstance(j, dict) and 's' in j) or set(j['s']) != set(n for n, _ in dt[1]):
+        if not (isinstance(j, dict) and 's' in j):
+            return None
+        names = [n for n, _ in dt[1]]
+        optional = names if dt[2] is None else dt[2]      # StructOf(optional=None): every member is optional
+        if set(j['s']) - set(names) or set(names) - set(j['s']) - set(optional):
             return None
         md = dict((n, d) for n, d in dt[1])
         r = {n: spec_usable(md[n], x, strict) for n, x in j['s'].items()}
